@@ -104,6 +104,7 @@ func runC15(c *mon.Ctx) {
 		"hostile-B arm: B = empty, 0, 1, p-1, p, 2p, k*v (t = 0), 2^2048-1, 300 random bytes: no panic, and for B < 2^2048 the spec formula still decides (A, M1). " +
 		"bad-group arm: non-2048-bit safe primes, primes with composite (p-1)/2, composites, p+2, bit flips, empty/zero p, g outside 2..7 and non-residue g: Hash and NewHash must return an error and an empty answer. " +
 		"history arm: Hash/NewHash with a valid (g, p), then EVERY inadmissible g on the same p, refused moduli presented repeatedly, the valid group again (answers must still equal the reference), reversed with 3x repeats, from 2-3 goroutines; and after the main arm every inadmissible g of every prime is presented again. " +
+		"alias arm: password/salt1/salt2/B/secret carved adjacent from ONE buffer or with 64 bytes of spare capacity: caller memory (full capacity) unchanged after every call, earlier NewHash results unchanged by a second NewHash, and the FIRST registration still verifies a login (reference verifier) after the second. " +
 		"new-hash arm: NewHash = pad2048(g^PH2(password, salt1 || 32 random bytes, salt2)). distinct non-trivial = distinct (arm, group, g, password class, secret class, B encoding, salt length buckets, outcome)")
 	c.Assume("refmodel/crypto2_srp.go transcribes core.telegram.org/api/srp (own PBKDF2-HMAC-SHA512 per RFC 8018 over crypto/hmac); math/big, crypto/sha256, crypto/sha512 are shared with the code under test")
 	c.Assume("a wrong password passing the verifier by a SHA256 collision is not a realistic false alarm")
@@ -209,6 +210,7 @@ func runC15(c *mon.Ctx) {
 			}
 		}()
 		c15History(c, ms)
+		c15Alias(c, ms)
 	}()
 
 	var accepted, rejectedWrong atomic.Int64
